@@ -47,3 +47,68 @@ fn k_deconstruct_equipment_path() {
     }
     kani::cover!(true, "reachable");
 }
+
+// ---------------- bounded stand-ins by native execution (format! is outside CBMC's budget) ----------------
+fn all_body_types() -> Vec<(Race, Tribe, Gender)> {
+    let mut v = Vec::new();
+    for r in 1..=8u8 { for t in 1..=16u8 { for g in 0..=1u8 {
+        let (race, tribe, gender) = (Race::try_from(r).unwrap(), Tribe::try_from(t).unwrap(), Gender::try_from(g).unwrap());
+        if get_race_id(race, tribe, gender.clone()).is_some() { v.push((race, tribe, gender)); }
+    } } }
+    v
+}
+
+//@unit props=C15 label=B tier=quick native=1 fn=equipment::{build_equipment_path,deconstruct_equipment_path},race::build_skeleton_path bound="exhaustive by execution: every valid (race, tribe, gender) x 10 slots x equipment ids {0..999 step 1, 1000..9999 step 9}"
+//@desc equipment and skeleton paths are defined for every valid body type, have the documented shape, differ whenever their inputs differ (as far as the race code distinguishes them), and the id and slot read back from the built file name are the ones it was built from
+#[test]
+fn native_equipment_paths() {
+    let bodies = all_body_types();
+    assert_eq!(bodies.len(), 32, "8 races x 2 own tribes x 2 genders");
+    let slot_ids = [3, 4, 5, 7, 8, 9, 10, 11, 12, 13];
+    let mut ids: Vec<i32> = (0..1000).collect();
+    ids.extend((1000..10000).step_by(9));
+    let mut cases = 0u64;
+    let mut seen: std::collections::HashMap<String, (i32, i32, i32)> = std::collections::HashMap::new();
+    let mut skel = std::collections::HashMap::new();
+    for (race, tribe, gender) in bodies.iter() {
+        let code = get_race_id(*race, *tribe, gender.clone()).unwrap();
+        let sp = crate::race::build_skeleton_path(*race, *tribe, gender.clone());
+        assert_eq!(sp, format!("chara/human/c{code:04}/skeleton/base/b0001/skl_c{code:04}b0001.sklb"));
+        if let Some(prev) = skel.insert(sp, code) { assert_eq!(prev, code, "skeleton paths of different race codes differ"); }
+        for sid in slot_ids.iter() {
+            for id in ids.iter() {
+                let slot = get_slot_from_id(*sid).unwrap();
+                let p = build_equipment_path(*id, *race, *tribe, gender.clone(), slot.clone());
+                let ab = get_slot_abbreviation(slot.clone());
+                assert_eq!(p, format!("chara/equipment/e{id:04}/model/c{code:04}e{id:04}_{ab}.mdl"), "documented shape");
+                if let Some(prev) = seen.insert(p.clone(), (code, *sid, *id)) { assert_eq!(prev, (code, *sid, *id), "paths built from different inputs differ: {p}"); }
+                let file = p.rsplit('/').next().unwrap();
+                assert_eq!(deconstruct_equipment_path(file), Some((*id, slot)), "id and slot read back from {file}");
+                cases += 1;
+            }
+        }
+    }
+    println!("NATIVE native_equipment_paths cases={cases}");
+}
+
+//@unit props=C15 label=B tier=quick native=1 fn=equipment::build_character_path bound="exhaustive by execution: every valid body type x 5 categories x body versions 0..9999 step 7"
+//@desc character paths are defined for all valid inputs and differ whenever (race code, category, version) differ
+#[test]
+fn native_character_paths() {
+    let cats = [CharacterCategory::Body, CharacterCategory::Hair, CharacterCategory::Face, CharacterCategory::Tail, CharacterCategory::Ear];
+    let mut seen: std::collections::HashMap<String, (i32, usize, i32)> = std::collections::HashMap::new();
+    let mut cases = 0u64;
+    for (race, tribe, gender) in all_body_types().iter() {
+        let code = get_race_id(*race, *tribe, gender.clone()).unwrap();
+        for (ci, c) in cats.iter().enumerate() {
+            for ver in (0..10000).step_by(7) {
+                let p = build_character_path(*c, ver, *race, *tribe, gender.clone());
+                let (cp, pre, ab) = (get_character_category_path(*c), get_character_category_prefix(*c), get_character_category_abbreviation(*c));
+                assert_eq!(p, format!("chara/human/c{code:04}/obj/{cp}/{pre}{ver:04}/model/c{code:04}{pre}{ver:04}_{ab}.mdl"), "documented shape");
+                if let Some(prev) = seen.insert(p.clone(), (code, ci, ver)) { assert_eq!(prev, (code, ci, ver), "paths built from different inputs differ: {p}"); }
+                cases += 1;
+            }
+        }
+    }
+    println!("NATIVE native_character_paths cases={cases}");
+}
